@@ -136,6 +136,17 @@ SpecialExtras ==
          << <<AttrNames.other, [t |-> "float", v |-> "1"]>>, <<Attr2, [t |-> "int", v |-> "1"]>> >>,
          << <<AttrNames.other, [t |-> "bool", v |-> "0"]>>, <<Attr2, [t |-> "int", v |-> "0"]>> >>,
          << <<AttrNames.other, [t |-> "int", v |-> "0"]>>, <<Attr2, [t |-> "float", v |-> "0"]>> >> }
+  ELSE IF ExtraPreset = "attrs"
+  \* an application attribute that shares its local name with a PROV one, next to PROV attributes of
+  \* the same and of a later schema rank (PROV-XML: all prov: children first, then other namespaces)
+  THEN { << <<NameQN("ex", A, <<"type">>), [t |-> "str", v |-> "s1"]>>,
+            <<NamePL("prov", <<"type">>), Ref(NameQN("ex", A, Y))>>,
+            <<NamePL("prov", <<"value">>), [t |-> "int", v |-> "1"]>> >>,
+         << <<NameQN("ex", A, <<"label">>), [t |-> "str", v |-> "s1"]>>,
+            <<NamePL("prov", <<"label">>), [t |-> "str", v |-> "s2"]>>,
+            <<NamePL("prov", <<"location">>), [t |-> "str", v |-> "s1"]>> >>,
+         << <<NameQN("ex", A, <<"role">>), [t |-> "str", v |-> "s1"]>>,
+            <<NamePL("prov", <<"role">>), [t |-> "str", v |-> "s2"]>> >> }
   ELSE {}
 
 IdOptions(k) == IF k \in Elements THEN {<<NamePL("ex", <<"r">>)>>}
